@@ -14,6 +14,24 @@ pub uninterp spec fn ddiv(a: int, b: int) -> int;
 pub closed spec fn round_half_away(x: int) -> int {
     if x >= 0 { (2 * x + D()) / (2 * D()) } else { -((2 * (-x) + D()) / (2 * D())) }
 }
+/// rust_decimal's `round()` / `round_dp(0)`: midpoint to the nearest even integer ("banker's rounding")
+pub open spec fn round_half_even(x: int) -> int {
+    if x >= 0 {
+        let f = x / D(); let r = x % D();
+        if 2 * r < D() { f } else if 2 * r > D() { f + 1 } else if f % 2 == 0 { f } else { f + 1 }
+    } else {
+        let f = (-x) / D(); let r = (-x) % D();
+        -(if 2 * r < D() { f } else if 2 * r > D() { f + 1 } else if f % 2 == 0 { f } else { f + 1 })
+    }
+}
+pub open spec fn trunc_int(x: int) -> int { if x >= 0 { x / D() } else { -((-x) / D()) } }
+pub open spec fn floor_int(x: int) -> int { if x >= 0 || (-x) % D() == 0 { trunc_int(x) } else { trunc_int(x) - 1 } }
+pub open spec fn ceil_int(x: int) -> int { if x <= 0 || x % D() == 0 { trunc_int(x) } else { trunc_int(x) + 1 } }
+pub uninterp spec fn eq_ignore_case(a: Seq<char>, b: Seq<char>) -> bool;
+pub uninterp spec fn str_replace<P>(s: Seq<char>, from: P, to: Seq<char>) -> Seq<char>;
+pub uninterp spec fn str_lower(s: Seq<char>) -> Seq<char>;
+pub uninterp spec fn str_upper(s: Seq<char>) -> Seq<char>;
+pub uninterp spec fn str_trim(s: Seq<char>) -> Seq<char>;
 // other rounding strategies are different (uninterpreted) functions, so that swapping the strategy
 // in the code changes the proved value instead of breaking the build
 pub uninterp spec fn round_other(strategy: int, dp: int, x: int) -> int;
